@@ -373,8 +373,26 @@ class Orchestrator:  # thailint: ignore[srp]
         violations = []
         for rule in rules:
             rule_violations = self._safe_check_rule(rule, context)
-            violations.extend(rule_violations)
+            violations.extend(self._drop_suppressed(rule_violations, context))
         return violations
+
+    def _drop_suppressed(
+        self, violations: list[Violation], context: BaseLintContext
+    ) -> list[Violation]:
+        """Apply the documented inline suppression directives uniformly to every rule.
+
+        Rules may also filter on their own; the lazy-ignores rules are exempt because the
+        suppression comments are their subject.
+        """
+        if not violations or context.file_content is None:
+            return violations
+        content = context.file_content
+        return [
+            v
+            for v in violations
+            if v.rule_id.startswith("lazy-ignores")
+            or not self.ignore_parser.should_ignore_violation(v, content)
+        ]
 
     def _safe_check_rule(self, rule: BaseLintRule, context: BaseLintContext) -> list[Violation]:
         """Safely check a rule, returning empty list on error."""
